@@ -743,6 +743,9 @@ class TFLiteSupportedOperators:
                 valid = True
             else:
                 # Valid if OFM is 2/4/8x IFM (-1 for align corners)
+                if align_corners and (ifm_shape_h == 1 or ifm_shape_w == 1):
+                    # the scaling (OFM - 1) / (IFM - 1) is not defined for an extent of 1
+                    return False, f"Op has ifm_shape={ifm_shape}, ofm_shape={ofm_shape} and align_corners={align_corners}"
                 if align_corners:
                     h_upscale_factor = (ofm_shape_h - 1) / (ifm_shape_h - 1)
                     w_upscale_factor = (ofm_shape_w - 1) / (ifm_shape_w - 1)
